@@ -21,18 +21,22 @@ NFILTERS = 16
 UNKNOWN = "org.freedesktop.DBus.Error.UnknownMethod"
 
 
+FLAGS = [0, 0, 1, 2, 4, 7, 255]      # NO_REPLY_EXPECTED = 1, NO_AUTO_START = 2, ALLOW_INTERACTIVE_AUTHORIZATION = 4
+
+
 def gen_messages(r, n, serial0=1):
-    """n message specs <kind>.<serial>.<reply>.<member>.<sender>.<iface> with distinct serials and
-    distinct reply serials"""
+    """n message specs <kind>.<serial>.<reply>.<member>.<sender>.<iface>.<flags>.<byte order>.<destination> with
+    distinct serials and distinct reply serials (the body varies with the serial)"""
     out = []
-    replies = r.sample(range(100, 140), n)
+    replies = r.sample(range(100, 140 + 4 * n), n)
     for i in range(n):
         k = r.choice("ccssre")
         serial = serial0 + i
+        extra = ".%d.%s.%d" % (r.choice(FLAGS), r.choice("lB"), r.randrange(2))
         if k in "cs":
-            out.append("%s.%d.0.%s.%d.%d" % (k, serial, r.choice(MEMBERS), r.randrange(2), r.randrange(2)))
+            out.append("%s.%d.0.%s.%d.%d%s" % (k, serial, r.choice(MEMBERS), r.randrange(2), r.randrange(2), extra))
         else:
-            out.append("%s.%d.%d.-.%d.0" % (k, serial, replies[i], r.randrange(2)))
+            out.append("%s.%d.%d.-.%d.0%s" % (k, serial, replies[i], r.randrange(2), extra))
     return out
 
 
@@ -83,17 +87,27 @@ def gen_ops(r, arrivals, style, split=0.0):
             return "ws"
         if k < 0.80:
             return "wc"
-        if k < 0.92:
+        if k < 0.88:
             return "ro"
+        if k < 0.93:
+            return "tro"
+        if k < 0.96:
+            # a new filter mid-run; the socket is drained first so that it applies to later arrivals only
+            return "ra,sf:%d" % r.randrange(NFILTERS)
         return "ra"
 
     for a in arrivals:
-        if style == "after_all":
+        if style in ("after_all", "pull_all"):
             arrive(a)
             continue
         for _ in range(r.choice([0, 0, 1, 1, 2, 3]) if style == "mixed" else r.choice([0, 1])):
             ops.append(some_op())
         arrive(a)
+    if style == "pull_all":
+        # everything is read through refill_once (a wait for a reply that never comes, or one refill per arrival),
+        # i.e. through insert_message_or_send_error and not through refill_all's own copy of that code
+        ops += r.choice([["wr:98"], ["ro"] * len(arrivals), ["tro"] * len(arrivals), ["wr:97", "ws", "wc"],
+                         ["ro"] * (len(arrivals) // 2) + ["wr:98"]])
     for _ in range(r.choice([0, 1, 2, 4, 6]) if style != "drain_only" else 0):
         ops.append(some_op())
     # complete drain
@@ -104,7 +118,7 @@ def gen_ops(r, arrivals, style, split=0.0):
     if r.random() < 0.5:
         r.shuffle(drain)
     ops += drain
-    return ops
+    return [x for o in ops for x in o.split(",")]
 
 
 # ------------------------------------------------------------------ the property on the implementation's own output
@@ -140,7 +154,7 @@ def hx(s):
 
 
 def expected_error(spec):
-    k, serial, _, member, sender, iface = spec.split(".")
+    k, serial, _, member, sender, iface = spec.split(".")[:6]
     text = "No calls to %s.%s are accepted for object /o" % ("i.f" if iface == "1" else "", member)
     return "%s~%s~%s~%s" % (serial, hx(":1.5") if sender == "1" else "_", hx(UNKNOWN), hx(text))
 
@@ -220,6 +234,7 @@ def property_verdict(ops, toks):
 
 
 def run_batch(ctx, exe, drv, cases, kind):
+    frng = ctx.sub_rng("infinite/" + kind)
     # the model sees an arrival when it is complete: `ap` is invisible to it, `af` is the arrival
     def model_ops(ops):
         out, part = [], None
@@ -248,6 +263,8 @@ def run_batch(ctx, exe, drv, cases, kind):
                 h_exp.append("p|")
             else:
                 m_op, m_res = next(mo_ops), next(mo_res)
+                if m_op.endswith(":I") and frng.random() < 0.35:
+                    m_op = m_op[:-1] + "F"          # really Timeout::Infinite: the model says the message is there
                 h_ops.append("af" if op == "af" else m_op)
                 h_exp.append(m_res)
         hl.append("run %d %s" % (f, ",".join(h_ops)))
@@ -261,7 +278,12 @@ def run_batch(ctx, exe, drv, cases, kind):
 
 def judge(ctx, exe, kind, filters, hl, exp, iout):
     for f, line, e, io in zip(filters, hl, exp, iout):
+        if io.startswith("SETUPFAIL"):
+            ctx.extra["not_evaluated"] = ctx.extra.get("not_evaluated", 0) + 1
+            ctx.count("set-up failed (connect_to_bus / auth handshake)")
+            continue
         if io == "SKIPPED":
+            ctx.extra["not_evaluated"] = ctx.extra.get("not_evaluated", 0) + 1
             ctx.count("sequences skipped after three stuck cases in one harness process")
             continue
         if io.startswith("STUCK"):
@@ -269,13 +291,14 @@ def judge(ctx, exe, kind, filters, hl, exp, iout):
             # does not finish within its deadline is re-run alone with a longer one before it counts
             ctx.count("cases that exceeded their deadline")
             if ctx.extra.get("stuck_reruns", 0) >= 2:
+                ctx.extra["not_evaluated"] = ctx.extra.get("not_evaluated", 0) + 1
                 continue
             ctx.extra["stuck_reruns"] = ctx.extra.get("stuck_reruns", 0) + 1
-            rc, again, _ = vlib.run_lines(exe, [], [line], timeout=200, env={"C14_CASE_MS": "60000"})
+            rc, again, _ = vlib.run_lines(exe, [], [line], timeout=100, env={"C14_CASE_MS": "15000"})
             io = again[0] if rc == 0 and len(again) == 1 else "STUCK|"
             if io.startswith("STUCK"):
                 ctx.disagreements_checked += 1
-                ctx.violation("an RpcConn operation never returned (sequence not finished after 60 s) although all its operations are bounded",
+                ctx.violation("an RpcConn operation never returned (sequence not finished after 15 s) although all its operations are bounded",
                               {"line": line, "impl": io, "model": e})
                 continue
         if "HANG|" in io:
@@ -306,8 +329,15 @@ def judge(ctx, exe, kind, filters, hl, exp, iout):
         ctx.case((f, tuple(ops)), nontrivial=nontrivial,
                  sample={"filter": f, "ops": ",".join(ops)[:500], "results": io[:500]} if kind == "random" and len(ops) < 30 else None)
         ctx.count("kind:" + kind)
+        ctx.count("waits with Timeout::Infinite (message already queued)", sum(1 for o in ops if o.endswith(":F")))
+        ctx.count("try_refill_once calls", sum(1 for o in ops if o.startswith("tro")))
+        ctx.count("set_filter in the middle of a run", sum(1 for o in ops if o.startswith("sf:")))
+        if narr >= 10:
+            ctx.count("sequences with 10-100 arrivals")
+            ctx.count("arrivals:10+")
         ctx.count("filter:%d" % f)
-        ctx.count("arrivals:%d" % narr)
+        if narr < 10:
+            ctx.count("arrivals:%d" % narr)
         ctx.count("rejected arrivals", nrej)
         tiny = [(o, t) for o, t in zip(ops, toks) if o.rsplit(":", 1)[-1].startswith("u")]
         if tiny:
@@ -401,12 +431,15 @@ def run_tiny_batch(ctx, exe, drv, cases):
 def run(ctx):
     thorough = ctx.tier == "thorough"
     ctx.rule = ("case = (filter index 0..15, operation sequence): arrivals are up to 6 messages of mixed kinds (calls, signals, replies, "
-                "errors; distinct serials and reply serials; members from a pool so that the member filters split them), all "
+                "errors; distinct serials and reply serials; members from a pool so that the member filters split them; header flags from "
+                "{0,1,2,4,7,255}, both byte orders, with and without destination, bodies of varying length), a stream of long sequences with "
+                "10-100 arrivals, filter index 16 = no set_filter call (RpcConn::new's default), set_filter in the middle of a run (after a "
+                "refill_all, so that it applies to later arrivals), try_refill_once besides refill_once, all "
                 "permutations of message sets of size <= 4 and random orders of size 5-6, interleaved with generated try_*/wait_*/"
                 "refill_once/refill_all operations (in about a third of the sequences at least one arrival is written by the peer in two "
                 "pieces - cut inside the fixed header, the header fields, the padding, at the header/body boundary or inside the body - "
                 "with try/wait/refill operations between the pieces; the model sees such an arrival when it is complete), followed by a complete drain (refill_all, then try_get_signal/call n+1 times and "
-                "try_get_response twice per reply serial). Blocking operations use a 2 s timeout (standing in for Infinite) when the model finds the "
+                "try_get_response twice per reply serial). Blocking operations use Timeout::Infinite (a third) or a 2 s timeout when the model finds the "
                 "message, Nonblock when it does not and the socket is non-empty, Duration(1ms) on an empty socket. non-trivial = at "
                 "least two arrivals and a wait/refill operation before the final one; distinct = distinct (filter, sequence). Extra stream "
                 "'tiny deadlines': wait_* / refill_once with Duration(0..200 us) while messages are queued; the harness reports the "
@@ -461,7 +494,7 @@ def run(ctx):
     for _ in range(25000 if thorough else 1200):
         msgs = gen_messages(r, r.choice([1, 2, 3, 4, 5, 6, 6]))
         r.shuffle(msgs)
-        cases.append((r.randrange(NFILTERS), gen_ops(r, msgs, r.choice(["mixed", "mixed", "light", "after_all", "drain_only"]),
+        cases.append((r.randrange(NFILTERS + 1), gen_ops(r, msgs, r.choice(["mixed", "mixed", "light", "after_all", "drain_only"]),
                                                      split=r.choice([0.0, 0.0, 0.0, 0.25, 0.6]))))
     run_batch(ctx, exe, drv, cases, "random")
 
@@ -473,10 +506,22 @@ def run(ctx):
         cases.append((r.randrange(NFILTERS), gen_ops(r, msgs, r.choice(["mixed", "light", "after_all"]), split=r.choice([0.5, 1.0]))))
     run_batch(ctx, exe, drv, cases, "split arrivals")
 
+    # long sequences: any bound an implementation might put on a queue, the map or the list of collected errors
+    cases = []
+    for n in ([10, 16, 25, 40, 60, 100, 100, 30] if not thorough else [r.choice([10, 12, 20, 33, 50, 64, 80, 100]) for _ in range(400)]):
+        msgs = gen_messages(r, n)
+        r.shuffle(msgs)
+        cases.append((r.choice([0, 16, 3, 5, 7, 9, 10, 11, 14, r.randrange(NFILTERS)]),
+                      gen_ops(r, msgs, ["pull_all", "after_all", "pull_all", "light"][len(cases) % 4])))
+    run_batch(ctx, exe, drv, cases, "long")
+
     # deadlines that may pass while a wait is at work, messages queued
     cases = [(r.randrange(NFILTERS), gen_tiny(r)) for _ in range(20000 if thorough else 2500)]
     run_tiny_batch(ctx, exe, drv, cases)
     ctx.exhaustive = False
+    if ctx.extra.get("not_evaluated"):
+        ctx.tie_broken("%d sequences were not evaluated (set-up failure, or skipped / not re-run after stuck cases): the run "
+                       "does not show the property on them" % ctx.extra["not_evaluated"], "see the input distribution")
 
 
 def replay(ctx, body):
